@@ -41,6 +41,9 @@ pub struct Plan {
     pub sched_seed: u64,
     /// record a structured call trace (for the PyO3 boundary replay)
     pub trace: bool,
+    /// take the history as soon as the evaluation is finished, before cleanups that are still on offer are
+    /// acknowledged (and once more afterwards: it must not depend on when cleanups are acknowledged)
+    pub history_before_late_acks: bool,
 }
 impl Default for Plan {
     fn default() -> Self {
@@ -56,6 +59,7 @@ impl Default for Plan {
             use_next_job: false,
             sched_seed: 0,
             trace: false,
+            history_before_late_acks: false,
         }
     }
 }
@@ -145,6 +149,8 @@ pub struct Report {
     pub trace: Vec<String>,
     /// most signals the engine handled inside one call, and that number relative to jobs + edges (x100)
     pub max_signals: u64,
+    /// history taken while cleanups were still on offer (Plan.history_before_late_acks)
+    pub history_early: Option<History>,
 }
 
 impl Report {
@@ -960,9 +966,19 @@ pub fn evaluate(
     let w2 = world.clone();
     let consumed = g.consumed();
     let consumed2 = consumed.clone();
+    // the comparison is asked "is <current> altered with respect to <last recorded>": the recorded side always comes
+    // from the input history. A question with the roles swapped is only harmless for symmetric comparisons (C16, C15).
+    let recorded_values: std::collections::HashSet<String> = history.values().cloned().collect();
+    let role_errors: Rc<RefCell<Vec<String>>> = Rc::new(RefCell::new(vec![]));
+    let role_errors2 = role_errors.clone();
     let strat = VerifStrategy {
         present: Box::new(move |q| q.split(":::").all(|p| w2.borrow().disk.contains_key(p))),
-        altered: Box::new(move |u, d, last, cur| altered(mode, &consumed, u, d, last, cur)),
+        altered: Box::new(move |u, d, last, cur| {
+            if !recorded_values.contains(last) && role_errors2.borrow().len() < 4 {
+                role_errors2.borrow_mut().push(format!("is_history_altered({}, {}, last={:?}, current={:?}): the 'last recorded' argument is not a record of the input history{}", u, d, last, cur, if recorded_values.contains(cur) { " (the 'current' argument is: the two are swapped)" } else { "" }));
+            }
+            altered(mode, &consumed, u, d, last, cur)
+        }),
         input_list: Box::new(move |id, _ups| consumed2[id].iter().cloned().collect::<Vec<_>>().join("\n")),
     };
     let mut ev: Ev = PPGEvaluator::new_with_history(history.clone(), strat);
@@ -1023,6 +1039,12 @@ pub fn evaluate(
             d.misuse_round(if d.finished { "finished" } else { "running" });
         }
         if d.finished {
+            if plan.history_before_late_acks && !d.cleanup.is_empty() && d.rep.history_early.is_none() {
+                let ev = &d.ev;
+                if let Ok(Ok(h)) = guarded(|| ev.new_history()) {
+                    d.rep.history_early = Some(h);
+                }
+            }
             // pending cleanups may still be acknowledged after the evaluation finished
             if !d.cleanup.is_empty() && step <= bound {
                 let j = d.cleanup.iter().next().unwrap().clone();
@@ -1092,6 +1114,11 @@ pub fn evaluate(
             _ => d.do_cleanup(&j),
         }
     }
+    for e in role_errors.borrow().iter() {
+        let swapped = e.contains("swapped");
+        d.rep.violations.push(Violation { prop: "C16", rule: "comparison-asked-with-wrong-roles", sig: format!("comparison-asked-with-wrong-roles|{}", if swapped { "swapped" } else { "not-from-history" }), detail: e.clone() });
+        d.rep.violations.push(Violation { prop: "C15", rule: "comparison-asked-with-wrong-roles", sig: format!("comparison-asked-with-wrong-roles|{}", if swapped { "swapped" } else { "not-from-history" }), detail: e.clone() });
+    }
     d.rep.steps = step;
     d.rep.max_depth = pypipegraph2::verif::take_max_depth();
     if d.rep.started.len() != d.rep.started_set().len() {
@@ -1101,7 +1128,20 @@ pub fn evaluate(
     if !d.rep.fatal && d.finished {
         let ev = &d.ev;
         match guarded(|| ev.new_history()) {
-            Ok(Ok(h)) => d.rep.history_out = Some(h),
+            Ok(Ok(h)) => {
+                if let Some(early) = &d.rep.history_early {
+                    if *early != h {
+                        let mut ks: Vec<&String> = early.keys().filter(|k| h.get(*k) != early.get(*k)).collect();
+                        ks.extend(h.keys().filter(|k| !early.contains_key(*k)));
+                        ks.sort();
+                        ks.dedup();
+                        let detail = format!("the history taken while cleanups were still on offer differs from the one taken after they were acknowledged, in {:?}", ks.iter().take(6).map(|k| (k.to_string(), early.get(*k).cloned(), h.get(*k).cloned())).collect::<Vec<_>>());
+                        d.rep.violations.push(Violation { prop: "C14", rule: "history-depends-on-ack-timing", sig: "history-depends-on-ack-timing|".to_string(), detail: detail.clone() });
+                        d.rep.violations.push(Violation { prop: "C11", rule: "history-before-late-ack-differs", sig: "history-before-late-ack-differs|".to_string(), detail });
+                    }
+                }
+                d.rep.history_out = Some(h)
+            }
             Ok(Err(e)) => {
                 let s = err_str(&e);
                 let sig = error_sig(g, &s);
